@@ -376,6 +376,10 @@ func (ex *executor) apiStep(idx int, st *Step) {
 		sp := addressed()
 		bfi, berr := ex.fs.Stat(ctx, sp)
 		switch {
+		case berr == nil && !bfi.IsDir && ex.mem() != nil && bfi.Size != int64(len(ex.mem().nodes[model.Normalise(sp).Path].data)):
+			// the backend announces a size its stream does not have: whatever the
+			// client makes of that is not the library's doing
+			ex.probe("open-of-a-file-with-metadata-only-size")
 		case berr != nil || bfi.IsDir:
 			if err == nil {
 				bad("open-bytes", fmt.Sprintf("Open(%q) succeeded although the backend has no such file", a.Name))
